@@ -470,6 +470,21 @@ def futures_scn(prefix, family, caps=(1, 2), spins=(0, 0)):
             name = "%s-%sF-c%d-%d" % (prefix, family, cap, k)
             k += 1
             out.append(scenario(name, family, True, cap, "busy", t.setup, threads, fin, spins=list(spins)))
+        # one consumer of a shared stream takes a value and leaves while its sibling keeps polling
+        t = Topo(family, 1, [2])
+        threads = [sends("tx", 101, cap + 2, api="fsend", drop=True), [S("frecv_all", "rx")],
+                   [S("frecv", "rxb"), S("drop", "rxb")]]
+        name = "%s-%sF-sibleave-c%d-%d" % (prefix, family, cap, k)
+        k += 1
+        out.append(scenario(name, family, True, cap, "busy", t.setup, threads, [S("recv", "rx"), S("drop", "rx")],
+                            spins=list(spins)))
+        t = Topo(family, 2, [2])
+        threads = [sends("tx", 101, cap + 1, api="fsend", drop=True), sends("tx2", 201, cap + 1, api="fsend", drop=True),
+                   [S("frecv_all", "rx")], [S("poll", "rxb"), S("poll", "rxb"), S("drop", "rxb")]]
+        name = "%s-%sF-sibleave2-c%d-%d" % (prefix, family, cap, k)
+        k += 1
+        out.append(scenario(name, family, True, cap, "busy", t.setup, threads, [S("recv", "rx"), S("drop", "rx")],
+                            spins=list(spins)))
         # single-consumer futures receiver (view closure), polled in a task
         t = Topo(family, 1, [1])
         threads = [sends("tx", 101, cap + 2, api="fsend", drop=True), [S("frecv_all", "rx")]]
@@ -497,28 +512,33 @@ def futures_scn(prefix, family, caps=(1, 2), spins=(0, 0)):
 # --------------------------------------------------------------------------- C16 / C17
 def churn(prefix, family="bcast", caps=(2,), cycles=7, fut=False):
     """stream add/remove and handle clone/drop churn with enough retirements to trigger reclamation cycles,
-    writers scanning the stream list, and idle handles that never operate"""
+    writers scanning the stream list, idle handles that never operate and a handle that acknowledges late.
+    Every handle name is used by one thread only; the churner owns the sole handle of its stream."""
     out = []
     k = 0
     snd = "start_send" if fut else "send"
     rcv = "poll" if fut else "recv"
+    mk = "add_stream" if family == "bcast" else "clone"
     for cap in caps:
-        # idle handles: a sender clone and a receiver clone that never operate
-        setup = [S("clone", "tx", new="idle_tx"), S("clone", "rx", new="idle_rx")]
+        setup = [S("clone", "tx", new="idle_tx"), S(mk, "rx", new="idle_rx"), S(mk, "rx", new="cons_rx"),
+                 S(mk, "rx", new="lag_rx")]
         churner = []
         for i in range(cycles):
             if family == "bcast":
                 churner += [S("add_stream", "rx", new="a%d" % i), S(rcv, "a%d" % i), S("drop", "a%d" % i)]
             churner += [S("clone", "rx", new="c%d" % i), S("drop", "c%d" % i)]
-        prod = []
-        for i in range(cycles):
-            prod += [S(snd, "tx", v=101 + i)]
-        cons = [S(rcv, "rx") for _ in range(cycles)]
+        prod = [S(snd, "tx", v=101 + i) for i in range(cycles)]
+        cons = [S(rcv, "cons_rx") for _ in range(cycles)]
         churn2 = []
         for i in range(cycles):
             churn2 += [S("clone", "tx", new="t%d" % i), S(snd, "t%d" % i, v=201 + i), S("drop", "t%d" % i)]
-        fin = [S("drop", "idle_tx"), S("drop", "tx"), S("drain", "rx"), S("drop", "idle_rx"), S("drop", "rx")]
-        for threads in ([prod, churner, cons], [prod, churner, churn2], [churn2, churner]):
+        lag = [S(rcv, "lag_rx")]
+        fin = [S("drop", "idle_tx"), S("drop", "tx")]
+        for h in ("rx", "cons_rx", "lag_rx", "idle_rx"):
+            fin += [S("drain", h)] if not fut else []
+        fin += [S("drop", h) for h in ("idle_rx", "cons_rx", "lag_rx", "rx")]
+        for threads in ([prod, churner, cons], [prod, churner, churn2], [churn2, churner], [prod, churner, lag],
+                        [prod, churner, cons, lag]):
             name = "%s-%s%s-c%d-%d" % (prefix, family, "F" if fut else "", cap, k)
             k += 1
             s = scenario(name, family, fut, cap, "busy", setup, threads, fin)
@@ -527,37 +547,22 @@ def churn(prefix, family="bcast", caps=(2,), cycles=7, fut=False):
     return out
 
 
-def deep_shared(prefix, family="bcast", cap=4, nvals=9):
-    """a ring of 4 with two or three consumers of one stream and a producer that laps it twice: the
-    schedules that need a lost cursor race followed by a wrap-around"""
+def many_parked(prefix, counts=(7, 8, 9, 10, 12)):
+    """single-threaded: n stream tasks (one per stream) park on an empty queue, one send must wake every one of
+    them; n sink tasks park on a full queue, one receive on every stream must wake every one of them"""
     out = []
-    for k, ncons in enumerate((2, 3)):
-        t = Topo(family, 1, [ncons])
-        threads = [sends("tx", 101, nvals, retry=True, drop=True)] + [[S("brecv_all", h)] for h in t.streams[0]]
-        out.append(scenario("%s-%s-deep-c%d-%d" % (prefix, family, cap, k), family, False, cap, "busy", t.setup, threads,
-                            final_phase(t, {"tx"})))
-    return out
-
-
-def with_epoch_pending(scns, family_of=None):
-    """variants of scenarios whose setup first retires more than 20 objects, so that the epoch-change
-    signal is pending when the real program starts (every handle's first call takes the slow path)"""
-    out = []
-    for s in scns:
-        pre = []
-        if s["flavour"] == "bcast":
-            for i in range(6):
-                pre += [S("add_stream", "rx", new="e%d" % i), S("drop", "e%d" % i)]
-        else:
-            for i in range(22):
-                pre += [S("clone", "rx", new="e%d" % i), S("drop", "e%d" % i)]
-        s2 = dict(s)
-        s2["name"] = s["name"] + "-ep"
-        ph = [list(p) for p in s["phases"]]
-        if len(ph) >= 2 and len(ph[0]) == 1 and len(ph[1]) > 1:
-            ph[0] = [pre + list(ph[0][0])]
-        else:
-            ph = [[pre]] + ph
-        s2["phases"] = ph
-        out.append(s2)
+    for n in counts:
+        setup = [S("add_stream", "rx", new="p%d" % i) for i in range(1, n)]
+        hs = ["rx"] + ["p%d" % i for i in range(1, n)]
+        prog = [dict(S("poll", h), task=20 + i) for i, h in enumerate(hs)]
+        prog.append(S("send", "tx", v=101))
+        prog += [dict(S("wpoll", h), task=20 + i) for i, h in enumerate(hs)]
+        fin = [S("drop", "tx")] + [S("drop", h) for h in hs]
+        out.append(scenario("%s-consparked-%d" % (prefix, n), "bcast", True, 16, "busy", setup, [prog], fin, spins=[0, 0]))
+        # the end of the stream must reach every parked task too
+        prog2 = [dict(S("poll", h), task=20 + i) for i, h in enumerate(hs)]
+        prog2.append(S("drop", "tx"))
+        prog2 += [dict(S("wpoll", h), task=20 + i) for i, h in enumerate(hs)]
+        out.append(scenario("%s-consparked-end-%d" % (prefix, n), "bcast", True, 16, "busy", setup, [prog2],
+                            [S("drop", h) for h in hs], spins=[0, 0]))
     return out
